@@ -844,3 +844,13 @@ Proof.
   split; [exact c04_cursors_ok_sound_proof|]. split; [exact c04_burst_from_num_proof|].
   split; [exact c04_burst_from_cursor_proof|]. split; [exact c04_burst_junction_consumer_proof | exact c04_burst_through_proof].
 Qed.
+
+Lemma c04_burst_discipline_proof : C04_burst_discipline.
+Proof.
+  intros s hd sg W HC HA. split; [|split].
+  - intros n evs E. apply c04_cursors_ok_sound_proof. apply (c04_burst_from_num_proof s hd sg n evs W HC HA E).
+  - intros c evs HLn Hle E. apply c04_cursors_ok_sound_proof.
+    destruct (c04_burst_from_cursor_proof s hd sg c evs W HC HA HLn Hle E) as (u & r & jr & _ & _ & _ & _ & _ & K & _). exact K.
+  - intros start c evs Hh E. apply c04_cursors_ok_sound_proof.
+    destruct (c04_burst_through_proof s hd sg start c evs W HC HA Hh E) as (o & u & r & jr & _ & _ & _ & _ & _ & _ & _ & K & _). exact K.
+Qed.
